@@ -4,6 +4,7 @@
 import Gmars.Model.Lex
 import Gmars.Proofs.CompileWF
 import Gmars.Proofs.AsmTerm
+import Gmars.Proofs.AsmCost
 
 namespace Gmars.Props.C05
 open Gmars
@@ -80,5 +81,56 @@ theorem passes_bounded (ts : List Token) (fuel : Nat) (h : 13 ≤ fuel) : forLoo
   EQU expansion is not linear (`a equ b+b`, `b equ c+c`, … doubles per line, as in pMARS). The
   correspondence domain `soup` runs every case under a deadline and counts goroutines.
 -/
+
+/-! ### sizes: what "time proportional to the size of the input after FOR expansion" rests on
+
+Lean cannot observe time; it can bound every stage's output and every loop's trip count. `S src`
+is the longest token list among the passes of the FOR loop ("the size after expansion"),
+`Work cfg src` the sum of all of them (the tokens the loop moves). -/
+
+/-- the lexer emits at most one token per byte, plus the closing EOF — every byte string -/
+theorem lex_linear (src : List UInt8) : (lexBytes src).length ≤ src.length + 1 :=
+  Gmars.lex_linear src
+
+/-- the parser returns at most one source line per token and stores at most every token once -/
+theorem parse_linear {toks : List Token} {lines : List SourceLine} {ameta : AsmMeta}
+    (h : parse toks = .ok (some (lines, ameta))) :
+    lines.length ≤ toks.length ∧ (lines.map Parser.tokCount).sum ≤ toks.length :=
+  Gmars.parse_linear h
+
+/-- one expansion pass multiplies the stream by at most (count + 1), for ANY token list -/
+theorem expand_pass_size {eval : List Token → SymTab → EvalRes} {toks out : List Token}
+    {syms : SymTab} {u : Bool} (h : forExpandWith eval toks syms = .ok (some out, u)) :
+    ∃ n, IsCount eval syms toks n ∧ out.length ≤ toks.length + n * toks.length :=
+  Gmars.expand_pass_size h
+
+/-- the compiler emits one instruction per instruction line -/
+theorem compile_linear {lexTokens : String → List Token} {cfg : Config} {lines : List SourceLine}
+    {ameta : AsmMeta} {w : WarriorData} (h : compile lexTokens cfg lines ameta = .ok (some w)) :
+    w.code.size = (lines.filter Compile.isInstr).length ∧ w.code.size ≤ lines.length :=
+  Compile.compile_linear h
+
+/-- the pass loop moves at most fourteen times the expanded size -/
+theorem assemble_work_bound (cfg : Config) (src : List UInt8) : Work cfg src ≤ 14 * S src :=
+  Gmars.assemble_work_bound cfg src
+
+/-- with FOR counts of at most `n` the expanded size is at most `(bytes + 1)·(n + 1)^13`; without
+    FOR blocks the work is linear in the input -/
+theorem passes_growth {n : Nat} {src : List UInt8} (h : CountsLe n src) :
+    S src ≤ (src.length + 1) * (n + 1) ^ 13 :=
+  Gmars.passes_growth h
+
+theorem work_linear_no_for (cfg : Config) {src : List UInt8} (h : CountsLe 0 src) :
+    Work cfg src ≤ 14 * (src.length + 1) :=
+  Gmars.work_linear_no_for cfg h
+
+/-- the assembled warrior is no longer than the expanded input -/
+theorem assemble_output_bound {cfg : Config} {src : List UInt8} {w : WarriorData}
+    (h : assemble cfg src = .ok w) :
+    ∃ toks lines ameta, toks ∈ passes 14 0 (lexBytes src) ∧
+      parse toks = .ok (some (lines, ameta)) ∧
+      lines.length ≤ toks.length ∧ (lines.map Parser.tokCount).sum ≤ toks.length ∧
+      w.code.size ≤ lines.length ∧ w.code.size ≤ S src :=
+  Gmars.assemble_output_bound h
 
 end Gmars.Props.C05
